@@ -326,13 +326,30 @@ func (c *child) stop() {
 	os.Remove(c.errLog)
 }
 
+// tailFile returns the part of a child's stderr file that follows its last progress marker
+// ("CASE <id>" or "ITEM <k>" line), limited to n bytes: the marker names what was running when it died.
 func tailFile(path string, n int) string {
 	b, _ := os.ReadFile(path)
-	if len(b) > n {
-		// keep the head (fatal error message) and drop the rest
-		b = b[:n]
+	if len(b) > 8<<20 {
+		b = b[:8<<20]
 	}
-	return string(b)
+	s := string(b)
+	last := -1
+	for _, m := range []string{"\nITEM ", "\nCASE ", "\nK "} {
+		if k := strings.LastIndex(s, m); k > last {
+			last = k
+		}
+	}
+	if last < 0 && (strings.HasPrefix(s, "CASE ") || strings.HasPrefix(s, "ITEM ")) {
+		last = 0
+	}
+	if last > 0 {
+		s = s[last+1:]
+	}
+	if len(s) > n {
+		s = s[:n]
+	}
+	return s
 }
 
 // RunCases evaluates all cases on child processes and returns results in input order.
@@ -385,10 +402,6 @@ func (p *Pool) RunCases(cases []Case) []*Result {
 					ch.stdin.Close()
 					ch.cmd.Wait()
 					msg := tailFile(ch.errLog, 3000)
-					// keep only the part after the last CASE marker
-					if k := strings.LastIndex(msg, "CASE "+c.ID+"\n"); k >= 0 {
-						msg = msg[k:]
-					}
 					ch.resF.Close()
 					os.Remove(ch.errLog)
 					ch = nil
@@ -421,3 +434,98 @@ func (p *Pool) RunCases(cases []Case) []*Result {
 }
 
 var _ = context.Background
+
+// BatchItem is one unit of a crash-attributed batch.
+type BatchItem struct {
+	ID   string            `json:"id"`
+	Data map[string]string `json:"data"`
+}
+
+// BatchResult is what the child reports for one item (Crash is set by the parent).
+type BatchResult struct {
+	ID    string            `json:"id"`
+	Data  map[string]string `json:"data,omitempty"`
+	Crash string            `json:"crash,omitempty"`
+}
+
+// BatchModes: child-side handlers processing one item.
+var BatchModes = map[string]func(it *BatchItem) map[string]string{}
+
+func init() {
+	ChildModes["batch"] = func(c *Case) *Result {
+		var items []BatchItem
+		json.Unmarshal([]byte(c.Params["items"]), &items)
+		h := BatchModes[c.Params["handler"]]
+		var out []BatchResult
+		for k := range items {
+			fmt.Fprintf(os.Stderr, "ITEM %d\n", k)
+			out = append(out, BatchResult{ID: items[k].ID, Data: h(&items[k])})
+		}
+		b, _ := json.Marshal(out)
+		return &Result{Data: map[string]string{"results": string(b)}}
+	}
+}
+
+// RunBatch processes items in children, per items per case; an item during which the child dies (Go fatal
+// error, os.Exit, timeout) gets Crash set and the remaining items of its batch continue in a fresh child.
+func (p *Pool) RunBatch(handler string, items []BatchItem, per int, timeoutMs int) []BatchResult {
+	res := make([]BatchResult, len(items))
+	type span struct{ lo, hi int }
+	var todo []span
+	for i := 0; i < len(items); i += per {
+		j := i + per
+		if j > len(items) {
+			j = len(items)
+		}
+		todo = append(todo, span{i, j})
+	}
+	for round := 0; len(todo) > 0 && round < 10000; round++ {
+		cases := make([]Case, len(todo))
+		for k, sp := range todo {
+			b, _ := json.Marshal(items[sp.lo:sp.hi])
+			cases[k] = Case{ID: fmt.Sprintf("batch-%s-%d", handler, sp.lo), Mode: "batch", TimeoutMs: timeoutMs, Params: map[string]string{"handler": handler, "items": string(b)}}
+		}
+		rs := p.RunCases(cases)
+		var next []span
+		for k, r := range rs {
+			sp := todo[k]
+			if !r.Crash && !r.Timeout && r.Data != nil {
+				var out []BatchResult
+				json.Unmarshal([]byte(r.Data["results"]), &out)
+				for q := range out {
+					if sp.lo+q < sp.hi {
+						res[sp.lo+q] = out[q]
+					}
+				}
+				continue
+			}
+			// which item was running?
+			at := 0
+			for _, l := range strings.Split(r.CrashMsg, "\n") {
+				if strings.HasPrefix(l, "ITEM ") {
+					fmt.Sscan(l[5:], &at)
+				}
+			}
+			if at < 0 || sp.lo+at >= sp.hi {
+				at = 0
+			}
+			msg := r.CrashMsg
+			if r.Timeout {
+				msg = "TIMEOUT " + msg
+			}
+			if r.HostPanic != "" {
+				msg = "HOSTPANIC " + r.HostPanic
+			}
+			res[sp.lo+at] = BatchResult{ID: items[sp.lo+at].ID, Crash: msg}
+			// items before 'at' ran to completion but their results died with the child: run them again, alone
+			if at > 0 {
+				next = append(next, span{sp.lo, sp.lo + at})
+			}
+			if sp.lo+at+1 < sp.hi {
+				next = append(next, span{sp.lo + at + 1, sp.hi})
+			}
+		}
+		todo = next
+	}
+	return res
+}
